@@ -192,7 +192,10 @@ def inline_atom(d: D, depth: int, oneline: bool) -> str:
         return m + inline(d, depth + 1, oneline, 3) + m2
     if k == "strike":
         m = d.pick(["~~", "~~", "~", "~~~"])
-        return m + inline(d, depth + 1, oneline, 3) + d.pick(["~~", m])
+        body = inline(d, depth + 1, oneline, 3)
+        if d.chance(0.4):
+            body = body.rstrip(" ")
+        return m + body + d.pick(["~~", m, "~~~", "~~~~", "~", "~~~~~"])
     if k == "code":
         n = d.i(1, 3)
         body = d.pick(["c", " c ", "a`b", "``", " ", "  ", " a", "a ", "\u00a0c\u00a0", " \u00a0 ", "a  b", "*x*", "<b>", "&amp;", "\\", "a\nb", " \n ", "\tc\t", "\x0bc\x0b", "[l](u)", "|"])
@@ -254,6 +257,41 @@ def inline(d: D, depth: int = 0, oneline: bool = False, maxn: int = 6) -> str:
         out.append(inline_atom(d, depth, oneline))
         out.append(d.pick(["", " ", "", " ", ""]))
     return "".join(out)
+
+
+DELIMS = [
+    "*", "**", "***", "_", "__", "~~", "~~~", "~", "[", "](u)", "](/u \"t\")", "]", "![", "`", "``", "a", "b", " ", " ", "<http://x.y>",
+    "<b>", "&amp;", "\\", "\\*", "[r]", "][r]", "(", ")", "\n", "http://a.b", "'", "\"",
+]
+
+
+def delim_soup(d: D, oneline: bool = False) -> str:
+    """Dense interplay of delimiter runs, brackets and link tails (balance_pairs territory)."""
+    out = []
+    for _ in range(d.i(2, 12)):
+        t = d.pick(DELIMS)
+        if oneline and t == "\n":
+            t = " "
+        out.append(t)
+    return "".join(out)
+
+
+def tight_nest(d: D, depth: int = 0) -> str:
+    """Nested delimiter constructs written without separators, with open/close run lengths varied
+    independently: emphasis/strike runs directly against brackets, link tails and each other."""
+    k = d.weighted([(4, "word"), (3 if depth < 3 else 0, "delim"), (3 if depth < 3 else 0, "link"), (1 if depth < 3 else 0, "image"), (1, "code"), (1, "auto")])
+    if k == "word":
+        return d.pick(["a", "b", "c d", "x", "é", "1", "a b"])
+    if k == "code":
+        return "`" + d.pick(["c", "*", "~~", "]", "["]) + "`"
+    if k == "auto":
+        return d.pick(["<http://x.y>", "<b>", "&amp;", "\\*", "\\~"])
+    inner = "".join(tight_nest(d, depth + 1) for _ in range(d.i(1, 3)))
+    if k == "delim":
+        ch = d.pick(["*", "_", "~", "*", "~"])
+        return ch * d.i(1, 3) + inner + ch * d.i(1, 5 if ch == "~" else 3)
+    tail = d.pick(["](u)", "](/u \"t\")", "][r]", "]", "][]", "](u"])
+    return ("![" if k == "image" else "[") + inner + tail
 
 
 @st.composite
@@ -563,7 +601,10 @@ def soup_d(d: D) -> str:
 
 
 def any_doc_d(d: D, tabs: bool = True, maxdepth: int = 3) -> str:
-    k = d.weighted([(45, "block"), (22, "corpus"), (13, "leaves"), (12, "soup"), (5, "inline"), (3, "unicode")])
+    k = d.weighted([(42, "block"), (20, "corpus"), (13, "leaves"), (10, "soup"), (5, "inline"), (7, "delims"), (3, "unicode")])
+    if k == "delims":
+        body = delim_soup(d) if d.chance(0.4) else "".join(tight_nest(d) + d.pick(["", " "]) for _ in range(d.i(1, 3)))
+        return d.pick(["", "", "> ", "- ", "# "]) + body + d.pick(["", "\n", "\n\n[r]: /u\n"])
     if k == "block":
         return block_doc_d(d, tabs, maxdepth)
     if k == "corpus":
